@@ -1,3 +1,4 @@
+import Peppi.ReadStream
 import Peppi.Write
 import Peppi.Utf8
 import Peppi.PeppiFmt
@@ -120,6 +121,22 @@ partial def loop (h : IO.FS.Stream) : IO Unit := do
     let r := readSlp { T with sjisOk := fun _ => false } { skipFrames := skip == "1", computeHash := hash == "1" } (parseHex hex)
     match r with
     | .ok g => IO.println (summary g)
+    | .err e => IO.println s!"err {e}"
+    | .panic p => IO.println s!"panic {p}"
+  | ["reads", skip, hash, sj, plan, hex] =>
+    -- the reader as a program of exact reads (`readProg`) over a source that delivers the input in pieces of the given
+    -- sizes (cycled), behind the hashing wrapper
+    let b := parseHex hex
+    let sizes := ((plan.splitOn ",").map String.toNat!).map (fun k => if k == 0 then 1 else k)
+    let rec cut (fuel : Nat) (i : Nat) (bs : Bytes) (acc : List Bytes) : List Bytes :=
+      match fuel with
+      | 0 => acc.reverse
+      | fuel + 1 => if bs.isEmpty then acc.reverse else
+        let k := sizes.getD (i % sizes.length) 1
+        cut fuel (i + 1) (bs.drop k) (bs.take k :: acc)
+    let s := cut (b.length + 1) 0 b []
+    match readSlpS { T with sjisOk := fun _ => sj == "1" } { skipFrames := skip == "1", computeHash := hash == "1" } s with
+    | .ok (g, _) => IO.println (summary g)
     | .err e => IO.println s!"err {e}"
     | .panic p => IO.println s!"panic {p}"
   | ["rt", hex] =>
